@@ -102,8 +102,8 @@ func drawSwarm(t *rapid.T, byzOn bool) swarm {
 		run:      w("run", 0, 2, 5),
 		drop:     w("drop", 0, 0, 1, 2),
 		dup:      w("dup", 0, 0, 1),
-		timeout:  w("timeout", 0, 1, 1, 2),
-		timeouts: w("timeouts", 0, 0, 1),
+		timeout:  w("timeout", 0, 0, 1, 2),
+		timeouts: w("timeouts", 0, 1, 1, 2),
 		hold:     w("hold", 0, 1, 2),
 		release:  w("release", 0, 1),
 		sync:     w("sync", 0, 0, 1),
@@ -154,6 +154,9 @@ func drawAction(t *rapid.T, w *sim.World, s swarm, o simOpts) sim.Action {
 	case "timeout":
 		return sim.Action{K: "timeout", Node: rapid.SampledFrom(live).Draw(t, "node")}
 	case "timeouts":
+		if rapid.IntRange(0, 3).Draw(t, "coordinated") > 0 {
+			return sim.Action{K: "timeouts", Mask: laggardMask(w)}
+		}
 		return sim.Action{K: "timeouts", Mask: uint16(rapid.IntRange(1, 1<<uint(w.Cfg.N)-1).Draw(t, "mask"))}
 	case "hold":
 		h := sim.HoldRule{
@@ -228,6 +231,13 @@ func runSimCase(t *rapid.T, o simOpts) *sim.World {
 	for x := range ev.ExcludedTriggers(o.Focus) {
 		w.Adv.Disabled[x] = true
 	}
+	if o.Focus == "ALL" {
+		for i := 1; i <= 20; i++ {
+			for x := range ev.ExcludedTriggers(fmt.Sprintf("C%02d", i)) {
+				w.Adv.Disabled[x] = true
+			}
+		}
+	}
 	w.Start()
 	sw := drawSwarm(t, len(cfg.Byz) > 0 || cfg.Outsiders > 0)
 	// prelude: the classic attack shape "some message class is delayed to some nodes, the rest runs, some nodes time out"
@@ -252,6 +262,17 @@ func runSimCase(t *rapid.T, o simOpts) *sim.World {
 	steps := rapid.IntRange(5, o.MaxSteps).Draw(t, "steps")
 	for i := 0; i < steps && w.Viol == nil && !w.AllDone(); i++ {
 		w.Apply(drawAction(t, w, sw, o))
+	}
+	// epilogue (half of the cases): the network heals, so that whatever state the prefix left gets a chance to commit
+	if rapid.Bool().Draw(t, "epilogue") {
+		w.Apply(sim.Action{K: "release"})
+		for r := 0; r < 4 && w.Viol == nil && !w.AllDone(); r++ {
+			w.Apply(sim.Action{K: "run", N: 300})
+			if w.AllDone() {
+				break
+			}
+			w.Apply(sim.Action{K: "timeouts", Mask: laggardMask(w)})
+		}
 	}
 	w.Mon.AtEnd()
 	return w
@@ -310,3 +331,25 @@ func init() {
 }
 
 var _ = testing.Short
+
+// laggardMask: the live correct nodes that are at the lowest (height, view) - a coordinated round of timeouts.
+func laggardMask(w *sim.World) uint16 {
+	var minH, minV uint64 = 1 << 62, 1 << 62
+	for _, i := range w.CorrectLive() {
+		n := w.Nodes[i]
+		if n.H() > w.Cfg.MaxHeight {
+			continue
+		}
+		if n.H() < minH || (n.H() == minH && n.V() < minV) {
+			minH, minV = n.H(), n.V()
+		}
+	}
+	var m uint16
+	for _, i := range w.CorrectLive() {
+		n := w.Nodes[i]
+		if n.H() == minH && n.V() == minV {
+			m |= 1 << uint(i)
+		}
+	}
+	return m
+}
